@@ -1,5 +1,5 @@
 (* Props/C10.v -- property theorems for C10 only. *)
-From LV Require Import Base FS FSFacts LayerEnv LayerEnvFacts LayerShared LayerEnvFS LayerEnvFSFacts.
+From LV Require Import Base FS FSFacts LayerEnv LayerEnvFacts LayerShared LayerEnvFS LayerEnvFSFacts Determinism FSInv LayerEnvFSExact LayerEnvFSCompose LayerEnvReadback LayerEnvFSRead LayerEnvFSCycle.
 From LVGen Require Import GenLayerEnv.
 
 Theorem c10_tables :
@@ -72,6 +72,29 @@ Theorem c10_never_persisted :
 Proof. exact (never_persisted beh_order writer_suffix). Qed.
 Print Assumptions c10_never_persisted.
 
-(* FULL (decided on implementation snapshots by Checks/C03Hold.v and by the correspondence, not
-   yet a theorem): c10_rw_fixpoint -- on writer-canonical env directories read -> write is the
-   identity on the file system, hence any number of cycles is. *)
+(* ---------- the read/write fixpoint, at file-system level ---------- *)
+(* A layer directory whose env directories hold what write_to_layer_dir leaves for a process-free
+   environment e: reading it and writing what was read (implicit paths included in what was read,
+   never in what is written) succeeds and leaves EVERY path of the file system as it was; so does
+   any number of read -> write cycles. *)
+Theorem c10_rw_fixpoint :
+  forall e dir s,
+    fs_inv s dir -> env_ok writer_suffix e -> layer_written writer_suffix e dir s ->
+    exists e' s',
+      read_from_layer_dir reader_suffix reader_no_ext layer_path_specs path_list_separator reads_process dir s = (s, Ok e') /\
+      write_to_layer_dir beh_order writer_suffix e' dir s = (s', Ok tt) /\
+      (forall q, pget q s' = pget q s) /\ fs_inv s' dir /\ layer_written writer_suffix e dir s'.
+Proof. exact (read_write_fixpoint writer_suffix reader_suffix reader_no_ext layer_path_specs path_list_separator reads_process spec_tables_inverse). Qed.
+Print Assumptions c10_rw_fixpoint.
+
+Theorem c10_cycles :
+  forall n e dir s,
+    fs_inv s dir -> env_ok writer_suffix e -> layer_written writer_suffix e dir s ->
+    exists s', cycles writer_suffix reader_suffix reader_no_ext layer_path_specs path_list_separator reads_process n dir s = (s', Ok tt) /\
+               forall q, pget q s' = pget q s.
+Proof. exact (cycles_fixpoint writer_suffix reader_suffix reader_no_ext layer_path_specs path_list_separator reads_process spec_tables_inverse). Qed.
+Print Assumptions c10_cycles.
+
+(* PARTIAL: environments with per-process entries (directories below env.launch) are outside
+   env_ok; for them the fixpoint is decided on implementation snapshots by Checks/C03Hold.v and by
+   the correspondence. *)
